@@ -279,3 +279,9 @@ def run(ctx):
     ctx.floor("C08.TERM", len(whiles), 2, "while loops of the TZ scanner")
     for w in whiles:
         check_cursor_loop(ctx, "C08.TERM", tzp, pcfg, w, monotone_calls=("j",))
+
+    # ---------------------------------------------------------------- C08.ARGS
+    from ..rules_common import check_call_arguments
+    check_call_arguments(ctx, "C08.ARGS", "C08")
+
+
